@@ -42,7 +42,32 @@ def library_versions():
 
 
 def analyse(prop, tier, repo_root, seed=0, quiet=False):
-    """Run the rules of one property.  Returns the Report (not yet finished)."""
+    """Run the rules of one property.  Returns the Report (not yet finished).
+
+    The analysed code may ask for the exact type of an abstract number, which the analysis does not know (python float or
+    numpy float64): the rules are then run a second time with the other answer and the worse of the two reports counts."""
+    from . import absint
+    absint.TYPE_WORLD, absint.TYPE_WORLD_USED = 'python', False
+    try:
+        rep = _analyse_once(prop, tier, repo_root, seed, quiet)
+        if absint.TYPE_WORLD_USED:
+            absint.TYPE_WORLD = 'numpy'
+            rep2 = _analyse_once(prop, tier, repo_root, seed, quiet)
+
+            def badness(r):
+                return (sum(1 for i in r.instances if i['verdict'] == 'violation'), sum(1 for i in r.instances if i['verdict'] == 'undecided'))
+            worse, other = (rep2, rep) if badness(rep2) > badness(rep) else (rep, rep2)
+            worse.notes['type_worlds'] = ('the analysed code asks for the exact type of abstract numbers: analysed once with every such '
+                                          'number a python scalar and once with every such number a numpy scalar; this is the report '
+                                          'of the world "%s" (the other one: %d violation(s), %d undecided)'
+                                          % (('numpy' if worse is rep2 else 'python',) + badness(other)))
+            rep = worse
+        return rep
+    finally:
+        absint.TYPE_WORLD, absint.TYPE_WORLD_USED = 'python', False
+
+
+def _analyse_once(prop, tier, repo_root, seed=0, quiet=False):
     mod = load_rules(prop)
     if mod is None:
         raise AnalysisError('no rules registered for %s' % prop)
